@@ -2260,6 +2260,10 @@ CHECK_ADF_ABORT( *error_return ) ;
 ADFI_delete_from_sub_node_table( file_index, &parent, &child, error_return ) ;
 CHECK_ADF_ABORT( *error_return ) ;
 
+	/** Finally, update modification date (this also flushes the write buffer) **/
+ADFI_write_modification_date( file_index, error_return ) ;
+CHECK_ADF_ABORT( *error_return ) ;
+
 } /* end of ADF_Move_Child */
 /* end of file ADF_Move_Child.c */
 /* file ADF_Number_of_Children.c */
